@@ -32,6 +32,15 @@ def run(ctx, report):
     report.section("writer entry", writer_entry, ctx, report, folder)
     report.section("level coverage", level_coverage, ctx, report)
     report.section("is_relative", is_relative_meaning, ctx, report, folder)
+    from . import webvtt_layout_fold
+    report.section("WebVTT cue settings on a grid", webvtt_layout_fold.run, ctx, report, {
+        "raise": ("R-GRID", "2", "a non-percentage length whose video dimension was not supplied raises RelativizationError "
+                                 "(relativize on); nothing else raises"),
+        "units": ("R-GRID", "2", "every written length is a percentage with at most two decimals; with relativize off an "
+                                 "absolute layout is not written at all"),
+        "fit": ("R-GRID", "3", "fit_to_screen: the box is cut at the 90% edge, a missing width reaches exactly that edge, a "
+                               "width that fits is unchanged"),
+    })
     report.not_decided.append("numeric results for particular float magnitudes (rounding of floats)")
 
 
